@@ -34,9 +34,9 @@ func intersect(a, b nilFacts) nilFacts {
 }
 
 type nilSummary struct {
-	retNonNil      []bool // result i is never nil
-	retNonNilNoErr []bool // result i is non-nil on every return whose error result is nil
-	paramNonNil    []bool // parameter k is non-nil at every in-package call site (unexported functions)
+	retNonNil      []bool   // result i is never nil
+	retNonNilNoErr []bool   // result i is non-nil on every return whose error result is nil
+	paramNonNil    []bool   // parameter k is non-nil at every in-package call site (unexported functions)
 	retFields      []strset // result i: access-path suffixes (".Regions") known non-nil at every return; nil = not yet computed
 	paramFields    []strset // parameter k: suffixes known non-nil at every in-package call site
 	paramIntLo     []int64  // parameter k (integer): lower bound over all in-package call sites (-infW unknown)
@@ -54,12 +54,13 @@ type NilAnalysis struct {
 	// per-instruction state for queries
 	at map[ssa.Instruction]nilFacts
 	// numeric side (numfacts*.go)
-	cur    ssa.Instruction // instruction currently being proved (context for conditional contracts)
-	curFn  *ssa.Function
-	reSub  map[string]int
-	gLen   map[string]int64
-	gArr   map[string][3]int64
-	lenSum map[*ssa.Function][]*lenSummary
+	cur     ssa.Instruction // instruction currently being proved (context for conditional contracts)
+	curFn   *ssa.Function
+	reSub   map[string]int
+	gLen    map[string]int64
+	gArr    map[string][3]int64
+	lenSum  map[*ssa.Function][]*lenSummary
+	fieldLo map[fieldLoKey]int
 }
 
 func isNilable(t types.Type) bool {
